@@ -2,10 +2,75 @@
     Only statements, each closed by [exact]; hypotheses about the hash function are explicit
     premises (the theorems are closed: no axiom, no section variable left). *)
 From BX Require Import Base.Prelude Base.Sha256 Model.JsonAcct Model.Merkle Model.StateLedger Model.LedgerSpec
-  Proofs.MerkleProofs Proofs.LedgerWitness.
+  Proofs.MerkleProofs Proofs.LedgerWitness Proofs.RootProofs.
 Local Open Scope N_scope.
 
-(** Transaction / receipt / timeout root (cbergoon tree as used by calcMerkleRoot): for leaf lists
+(** * State root
+
+    The root returned by FlushDirtyData is the hash of a canonical description of the block's
+    change set followed by the previous root: per modified account, in the order of the address
+    strings, (raw address, JSON of the dirty account record if one exists, the changed
+    (key, value) pairs in key order). *)
+Theorem C10_root_is_hash_of_canonical_description : forall (e : env) (m : st),
+  root_of e m = e_H e (preimage e (canon e m) (s_prev m)).
+Proof. exact flush_root_canon. Qed.
+Print Assumptions C10_root_is_hash_of_canonical_description.
+
+(** Two ledger states with the same previous root whose accounts contribute the same changes
+    (same modified accounts, same dirty account records, same changed key |-> value function)
+    flush to the same root - whatever the order of the writes that produced them, whether the
+    origin values were loaded from the account cache or the store, before or after a reopen.
+    Premises: distinct accounts have distinct address strings; account objects and dirty keys
+    are duplicate-free (true of every reachable state). *)
+Theorem C10_root_function_of_changes : forall (e : env),
+  (forall a b, e_str e a = e_str e b -> a = b) ->
+  forall m1 m2, objs_wf m1 -> objs_wf m2 -> s_prev m1 = s_prev m2 -> same_contribution m1 m2 ->
+  root_of e m1 = root_of e m2.
+Proof. exact root_function_of_changes. Qed.
+Print Assumptions C10_root_function_of_changes.
+
+(** Sensitivity to single perturbations of the description.  Premises: the hash has a 32-byte
+    output and is injective (on the inputs considered: stated for all inputs); previous roots are
+    32 bytes long.  Key and value are concatenated without length prefixes, so the statements are
+    about single perturbations only, and an added / dropped pair must contribute at least one byte
+    (deleting the empty key contributes none: open finding C10-kv-concat). *)
+Theorem C10_root_sensitive_value : forall (e : env),
+  (forall x, List.length (e_H e x) = 32%nat) -> (forall x y, e_H e x = e_H e y -> x = y) ->
+  forall (A B : list desc_entry) a d (P Q : list kvb) k v v' p1 p2,
+    List.length p1 = 32%nat -> List.length p2 = 32%nat -> v <> v' ->
+    e_H e (preimage e (A ++ (a, d, P ++ (k, v) :: Q) :: B) p1) <>
+    e_H e (preimage e (A ++ (a, d, P ++ (k, v') :: Q) :: B) p2).
+Proof. exact root_sensitive_value. Qed.
+Print Assumptions C10_root_sensitive_value.
+
+Theorem C10_root_sensitive_key : forall (e : env),
+  (forall x, List.length (e_H e x) = 32%nat) -> (forall x y, e_H e x = e_H e y -> x = y) ->
+  forall (A B : list desc_entry) a d (P Q : list kvb) k v p1 p2,
+    List.length p1 = 32%nat -> List.length p2 = 32%nat -> k ++ v <> [] ->
+    e_H e (preimage e (A ++ (a, d, P ++ Q) :: B) p1) <>
+    e_H e (preimage e (A ++ (a, d, P ++ (k, v) :: Q) :: B) p2).
+Proof. exact root_sensitive_key. Qed.
+Print Assumptions C10_root_sensitive_key.
+
+(** balance, nonce, code hash: the account record enters through its JSON encoding *)
+Theorem C10_root_sensitive_account : forall (e : env),
+  (forall x, List.length (e_H e x) = 32%nat) -> (forall x y, e_H e x = e_H e y -> x = y) ->
+  forall (A B : list desc_entry) a d d' kvs p1 p2,
+    List.length p1 = 32%nat -> List.length p2 = 32%nat -> enc_acct d <> enc_acct d' ->
+    e_H e (preimage e (A ++ (a, d, kvs) :: B) p1) <> e_H e (preimage e (A ++ (a, d', kvs) :: B) p2).
+Proof. exact root_sensitive_account. Qed.
+Print Assumptions C10_root_sensitive_account.
+
+Theorem C10_root_sensitive_prev : forall (e : env),
+  (forall x y, e_H e x = e_H e y -> x = y) ->
+  forall c p1 p2, List.length p1 = 32%nat -> List.length p2 = 32%nat -> p1 <> p2 ->
+    e_H e (preimage e c p1) <> e_H e (preimage e c p2).
+Proof. exact root_sensitive_prev. Qed.
+Print Assumptions C10_root_sensitive_prev.
+
+(** * Transaction / receipt / timeout root
+
+    Transaction / receipt / timeout root (cbergoon tree as used by calcMerkleRoot): for leaf lists
     of equal length every leaf and every position is committed to.  Hypotheses: the hash has a
     fixed 32-byte output and is collision-free on the 64-byte inputs inner nodes hash. *)
 Theorem C10_merkle_position_sensitive :
@@ -48,6 +113,19 @@ Print Assumptions C10_addstate_origin_refuted.
 Theorem C10_root_touched_refuted : roots_check (flush_recs cfg_fixed [h_touch_a; h_touch_b]) = 3.
 Proof. exact root_touched_refuted. Qed.
 Print Assumptions C10_root_touched_refuted.
+
+(** open finding kept in the model: key and value are hashed without length prefixes *)
+Theorem C10_kv_concat_refuted :
+  roots_check (flush_recs cfg_fixed [h_kv_a; h_kv_b]) = 4 /\ roots_check (flush_recs cfg_fixed [h_kv_c; h_kv_d]) = 4.
+Proof. exact kv_concat_refuted. Qed.
+Print Assumptions C10_kv_concat_refuted.
+
+(** non-vacuity: two different write orders (one through a reopen) reach states with the same,
+    non-empty canonical description *)
+Example C10_example_canon :
+  canon E0 (fst (run E0 cfg_fixed st0 h_perm_a)) = canon E0 (fst (run E0 cfg_fixed st0 h_perm_b)) /\
+  List.length (canon E0 (fst (run E0 cfg_fixed st0 h_perm_a))) = 2%nat.
+Proof. exact perm_canon_example. Qed.
 
 (** non-vacuity: re-executed blocks reproduce their roots; the root predicate holds on a history
     with three blocks, a rollback and a re-execution *)
